@@ -141,7 +141,16 @@ static void child(void* arg)
       YR_ARENA* loaded = NULL;
       rc = yr_arena_load_stream(&st, &loaded);
       printf(" L=%s", errname(rc)); fflush(stdout);
+      size_t total = 0;
       if (rc == ERROR_SUCCESS)
+        for (uint32_t i = 0; i < loaded->num_buffers; i++) total += loaded->buffers[i].used;
+      if (rc == ERROR_SUCCESS && total > (1u << 22))
+      {
+        // a (wrongly) accepted image with a huge buffer: do not print gigabytes
+        printf(":HUGE-%zu", total);
+        yr_arena_release(loaded);
+      }
+      else if (rc == ERROR_SUCCESS)
       {
         MS m2 = {0};
         int rc2 = save_arena(loaded, &m2);
